@@ -8,7 +8,7 @@ import json
 import lib, gen
 
 PID = "C15"
-THEOREMS = ["Properties_C15.v"]
+THEOREMS = ["Properties_C15.v", "Properties_C15_scan.v"]
 KEYS = ["NV", "RET", "DROP", "SPE", "SPW", "MAPSIZE"]
 SPANNER_KINDS = ("S", "S2", "SL", "SL2")
 LIBS = ["-ltbb", "-lboost_timer"]
